@@ -555,6 +555,11 @@ def run_history(ctx, st, secs0, steps, tag='h'):
 
 
 HISTORY_CORPUS = [
+    # an ACTIVE group's AUTO log file has its generated name: switching the file to an explicit name is a change,
+    # switching an explicit name to AUTO is not (AUTO matches any name)
+    ([('supervisord', []), ('program:a', [('command', '/bin/a')]), ('program:b', [('command', '/bin/b'), ('stdout_logfile', '/tmp/b.log')])],
+     [('write', [('supervisord', []), ('program:a', [('command', '/bin/a'), ('stdout_logfile', '/tmp/a.log')]), ('program:b', [('command', '/bin/b'), ('stdout_logfile', 'AUTO')])]),
+      ('reread',), ('update', []), ('reread',)]),
     # the stale-list scenario: group removed by hand, its log file switches AUTO -> explicit, reread, add
     ([('supervisord', []), ('program:a', [('command', '/bin/a')]), ('program:b', [('command', '/bin/b')])],
      [('remove', 'a'), ('write', [('supervisord', []), ('program:a', [('command', '/bin/a'), ('stdout_logfile', '/tmp/h_a.log')]), ('program:b', [('command', '/bin/b')])]),
